@@ -10,3 +10,56 @@ package ast_api_java
 //@ func NewJavaAPIListener
 //@ establishes
 //@ modifies *
+
+// ---- C12: what an annotation and a method declaration contribute to the API list
+
+//@ spec AnnName(a Node) string := GetText(Child(a, "qualifiedName"))
+//@ spec IsControllerAnn(s string) bool := s == "RestController" || s == "Controller"
+//@ spec IsMappingAnn(s string) bool := s == "RequestMapping" || s == "GetMapping" || s == "PutMapping" || s == "PostMapping" || s == "DeleteMapping"
+//@ spec VerbOf(s string) string := (s == "GetMapping" || s == "RequestMethod.GET" || s == "GET") ? "GET" : ((s == "PutMapping" || s == "RequestMethod.PUT" || s == "PUT") ? "PUT" :
+//@    ((s == "PostMapping" || s == "RequestMethod.POST" || s == "POST") ? "POST" : ((s == "DeleteMapping" || s == "RequestMethod.DELETE" || s == "DELETE") ? "DELETE" : "")))
+// a plain string literal "...": its content is the text without the two quotes
+//@ spec IsLit(t string) bool := len(t) >= 2 && HasPrefix(t, "\"") && HasSuffix(t, "\"") && !Contains(t[1:len(t) - 1], "\"")
+//@ spec Lit(t string) string := t[1:len(t) - 1]
+// dropping the quote characters of base + "literal" leaves base + literal content (proved once per run)
+//@ lemma DropQuotes: forall b string, t string :: {ReplaceAll(b + t, "\"", "")} !Contains(b, "\"") && IsLit(t) ==> ReplaceAll(b + t, "\"", "") == b + Lit(t)
+// key = value pairs of an annotation
+//@ spec Pairs(a Node) Node := Child(a, "elementValuePairs")
+//@ spec PairKey(a Node, j int) string := GetText(Child(ChildN(Pairs(a), "elementValuePair", j), "identifier"))
+//@ spec PairVal(a Node, j int) string := GetText(Child(ChildN(Pairs(a), "elementValuePair", j), "elementValue"))
+//@ spec NPairs(a Node) int := Count(Pairs(a), "elementValuePair")
+
+// the pairs of @RequestMapping(...) are read in order: value = sets the URI, method = sets the verb
+//@ spec Unq1(t string) string := len(t) < 2 ? t : t[1:len(t) - 1]
+//@ spec rec UriAfter(a Node, base string, u0 string, n int) string := n <= 0 ? u0 : (PairKey(a, n - 1) == "value" ? base + Unq1(PairVal(a, n - 1)) : UriAfter(a, base, u0, n - 1))
+
+// the annotation is a mapping on a handler method of a controller class
+//@ spec HandlerMapping(a Node) bool := Child(a, "qualifiedName") != nil && IsMappingAnn(AnnName(a))
+
+//@ method JavaAPIListener.EnterAnnotation
+//@ modifies isSpringRestController
+//@ modifies baseApiUrl
+//@ modifies hasEnterRestController
+//@ modifies currentRestAPI
+// nothing is ever listed by an annotation alone
+//@ ensures restAPIs == old(restAPIs)
+// a class that is not a controller contributes nothing: no pending entry
+//@ ensures !isSpringRestController ==> hasEnterRestController == old(hasEnterRestController)
+//@ ensures Child(ctx, "qualifiedName") != nil && IsControllerAnn(AnnName(ctx)) ==> isSpringRestController
+//@ ensures !(Child(ctx, "qualifiedName") != nil && IsControllerAnn(AnnName(ctx))) ==> isSpringRestController == old(isSpringRestController)
+// an annotation on the class itself (before its declaration is entered) starts no entry: only the base path may change
+//@ ensures !old(hasEnterClass) ==> hasEnterRestController == old(hasEnterRestController)
+//@ ensures old(hasEnterClass) ==> baseApiUrl == old(baseApiUrl)
+// the base path of the class: @RequestMapping("/p") or @RequestMapping(value = "/p")
+//@ ensures isSpringRestController && !old(hasEnterClass) && HandlerMapping(ctx) && AnnName(ctx) == "RequestMapping" && Child(ctx, "elementValue") != nil && Pairs(ctx) == nil &&
+//@    IsLit(GetText(Child(ctx, "elementValue"))) ==> baseApiUrl == Lit(GetText(Child(ctx, "elementValue")))
+// a mapping on a handler method: the entry being built has the base path followed by the method path, and the verb
+//@ ensures isSpringRestController && old(hasEnterClass) && HandlerMapping(ctx) ==> hasEnterRestController
+//@ ensures isSpringRestController && old(hasEnterClass) && HandlerMapping(ctx) && Child(ctx, "elementValue") != nil && IsLit(GetText(Child(ctx, "elementValue"))) && !Contains(old(baseApiUrl), "\"") ==>
+//@    currentRestAPI.Uri == old(baseApiUrl) + Lit(GetText(Child(ctx, "elementValue")))
+//@ ensures isSpringRestController && old(hasEnterClass) && HandlerMapping(ctx) && AnnName(ctx) != "RequestMapping" ==> currentRestAPI.HttpMethod == VerbOf(AnnName(ctx))
+// the value = "/p" form, for the shorthand annotations as for @RequestMapping (single pair)
+//@ ensures isSpringRestController && old(hasEnterClass) && HandlerMapping(ctx) && Child(ctx, "elementValue") == nil && Pairs(ctx) != nil && NPairs(ctx) == 1 && PairKey(ctx, 0) == "value" &&
+//@    IsLit(PairVal(ctx, 0)) && !Contains(old(baseApiUrl), "\"") ==> currentRestAPI.Uri == old(baseApiUrl) + Lit(PairVal(ctx, 0))
+//@ loop 1 invariant currentRestAPI.Uri == UriAfter(ctx, baseApiUrl, uriRemoveQuote, #i)
+//@ loop 1 invariant hasEnterRestController && isSpringRestController && baseApiUrl == old(baseApiUrl) && restAPIs == old(restAPIs)
